@@ -4,10 +4,14 @@ set -e
 cd "$(dirname "$0")"
 export GOFLAGS=-mod=mod GOPROXY=off GOSUMDB=off GOTOOLCHAIN=local CGO_ENABLED=0
 mkdir -p bin evidence replays lean/PQ/Gen
-(cd tools/xlate && go build -o ../../bin/xlate .)
-(cd /repo && go build -o /verif/bin/bitpackgen ./cmd/bitpackgen)
-./bin/xlate -repo /repo -out lean/PQ/Gen -facts lean/PQ/Gen/facts.json -bitpackgen bin/bitpackgen
-cp /repo/go.sum harness/go.sum
-(cd harness && go build -tags verif -o ../bin/pqh ./cmd/pqh)
+python3 - <<'PY'
+import sys
+sys.path.insert(0, "tools/orch")
+import common
+log = lambda m: print(m, file=sys.stderr)
+print(common.rebuild_tools(log))
+print(common.build_zoo(log))
+common.build_pqh(log)
+PY
 (cd lean && lake build PQ pqdriver PQ.Props.All)
 echo setup-ok
